@@ -345,7 +345,7 @@ pub fn strategy(ctx: &Ctx) -> BoxedStrategy<Case> {
                 1 => grid_poly(w, h, true).prop_map(ClipSpec::Path),
                 1 => (grid_poly(w, h, false), int_rect(w, h)).prop_map(|(p, r)| ClipSpec::PathRect(p, r)),
             ];
-            let src = prop_oneof![6 => solid_src(), 2 => image_src(4), 2 => gradient_src(&ctx, w.max(h) as f32)];
+            let src = prop_oneof![12 => solid_src(), 4 => image_src(4), 4 => gradient_src(&ctx, w.max(h) as f32), 1 => degenerate_gradient_src(&ctx, w.max(h) as f32)];
             // a layer rectangle with a non-empty part on the surface, origin usually not (0,0)
             let layer = prop::option::weighted(0.3, (0..w, 0..h).prop_flat_map(move |(x, y)| (Just(x), Just(y), x + 1..=w + 1, y + 1..=h + 1)));
             (Just((w, h)), prop::collection::vec(px_premul(), (w * h) as usize), src, alpha_f(), blend_biased(), route, clip, (0i32..=3, 0i32..=3), layer)
